@@ -140,7 +140,10 @@ class LineRun:
                 return 'build_error'
             self.progress = Progress(self, spec.get('max_events', 20000))
             bus.attach(self.progress)
-            for name in self.monitor_names:
+            names = list(self.monitor_names)
+            if spec.get('observe') and 'observer' not in names:
+                names.append('observer')        # (a workload, not an oracle: a nosy user reading every getter)
+            for name in names:
                 if getattr(REGISTRY[name], 'early', False):
                     continue
                 mon = REGISTRY[name](self)
@@ -305,7 +308,9 @@ def run_profile(sh, prop, profile, n_models, monitors, nontrivial=None, prefix='
             ov['budget'] = [None, None, 1500, 700]
             ov['max_events'] = 200000
             sh.count(prefix + 'long_history_models')
-        spec = modelgen.generate(seed, profile, tie=tie, overrides=ov, catching=True)
+        # (C01 judges run windows: a run cut short by an exception leaves its end marker behind and later runs stop
+        # there - user code that fails is therefore kept out of C01's lines)
+        spec = modelgen.generate(seed, profile, tie=tie, overrides=ov, catching=(prop != 'C01'))
         if ov and ov.get('max_events') == 200000:
             spec['long'] = True
         run_spec(sh, prop, spec, monitors, nontrivial, prefix)
